@@ -30,6 +30,10 @@ static int h_next383(bitint_iter_t *restrict iter, const bitint383_t *bi)
 # define bi383_next(it, bi)	h_next383(it, bi)
 static int h_next447(bitint_iter_t *restrict iter, const bitint447_t *bi);
 # define bi447_next(it, bi)	h_next447(it, bi)
+/* scale.c's dispatchers on the Gregorian scale (discharged by C15.dispatch / C15.greg) */
+# include "scale.h"
+# define echs_scale_ndim(s, y, m)	((unsigned int)S_MDAYS(y, m))
+# define echs_scale_wday(s, y, m, d)	((echs_wday_t)S_WDAY(y, m, d))
 #endif	/* !REPLAY */
 #include "evrrul.c"
 
@@ -280,4 +284,66 @@ void h_C01_fill_yly_ywd(void)
 #endif
 	}
 	SENTINEL("fill_yly_ywd");
+}
+
+/* BYMONTHDAY=N in month mo (MONTHLY rules, YEARLY rules with BYMONTH), optionally limited by plain BYDAY weekdays */
+void h_C01_fill_mly_ymd(void)
+{
+	IN_RANGE(unsigned, y, 1901, 2099);
+	IN_RANGE(unsigned, mo, 1, 12);
+	IN_RANGE(int, n, -31, 31);
+	IN_RANGE(unsigned, wdm, 0, 255);	/* bit w = weekday w allowed, bit 0 = ordinals present (ignored here) */
+	ASSUME(n != 0);
+	static bitint383_t cand[1];
+	static int d[2U * 31U];
+	memset(cand, 0, sizeof(cand));
+	memset(d, 0, sizeof(d));
+	d[0] = n;
+	fill_mly_ymd(cand, SCALE_GREGORIAN, y, mo, d, 1U, (uint8_t)wdm);
+	const int ndim = S_MDAYS(y, mo);
+	const int want = n > 0 ? n : ndim + 1 + n;	/* -1 = last day of the month */
+	const int exists = 1 <= want && want <= ndim;
+	const int allowed = exists && (!(wdm >> 1U) || ((wdm >> S_WDAY(y, mo, exists ? want : 1)) & 1U));
+	if (allowed) {
+		ASSERT(!BS_383(cand) && CNT_383(cand) == 1U, "BYMONTHDAY=N selects one day in a month that has an N-th (N-th last) day on an allowed weekday");
+		struct md_s r = unpack_cand((unsigned)cand->neg[0]);
+		ASSERT(r.m == mo && (int)r.d == want, "BYMONTHDAY=N selects the N-th day of the month, counted from the end for negative N");
+		SENTINEL("fill_mly_ymd selected");
+	} else {
+		ASSERT(!BS_383(cand) && CNT_383(cand) == 0U, "BYMONTHDAY beyond the month length (either sign) or on a weekday not listed selects nothing");
+		if (!exists && n < 0) { SENTINEL("fill_mly_ymd negative beyond the month"); }
+		SENTINEL("fill_mly_ymd nothing");
+	}
+	SENTINEL("fill_mly_ymd");
+}
+
+/* BYDAY=nXX in month m (MONTHLY rules): the n-th such weekday of the month */
+void h_C01_fill_mly_ymcw(void)
+{
+	IN_RANGE(unsigned, y, 1901, 2099);
+	IN_RANGE(unsigned, mo, 1, 12);
+	IN_RANGE(int, c, -5, 5);
+	IN_RANGE(unsigned, w, 1, 7);
+	ASSUME(c != 0);
+	static bitint383_t cand[1];
+	static bitint447_t dow[1];
+	memset(cand, 0, sizeof(cand));
+	memset(dow, 0, sizeof(dow));
+	dow->neg[0] = pack_cd(CD(c, (echs_wday_t)w));
+	dow->pos[0] = 2U;
+	fill_mly_ymcw(cand, y, mo, dow);
+	const int ndim = S_MDAYS(y, mo);
+	const int first = 1 + ((int)w - S_WDAY(y, mo, 1) + 7) % 7;
+	const int cnt = (ndim - first) / 7 + 1;
+	if ((c > 0 && c <= cnt) || (c < 0 && -c <= cnt)) {
+		const int want = c > 0 ? first + 7 * (c - 1) : first + 7 * (cnt + c);
+		ASSERT(!BS_383(cand) && CNT_383(cand) == 1U, "BYDAY=nXX selects one day in a month that has an n-th such weekday");
+		struct md_s r = unpack_cand((unsigned)cand->neg[0]);
+		ASSERT(r.m == mo && (int)r.d == want, "BYDAY=nXX selects the n-th (n-th last) such weekday of the month");
+		SENTINEL("fill_mly_ymcw selected");
+	} else {
+		ASSERT(!BS_383(cand) && CNT_383(cand) == 0U, "BYDAY=5XX / -5XX selects nothing in a month with only four such weekdays");
+		SENTINEL("fill_mly_ymcw nothing");
+	}
+	SENTINEL("fill_mly_ymcw");
 }
